@@ -198,7 +198,9 @@ def run(case, rec):
     # ---- (b) copying forms (source must stay unchanged) ----------------------------------------
     u = Uids()
     before = snapshot(tree, u)
-    for form_name in ("filtered", "copy(predicate)"):
+    for form_name in ("filtered", "copy(predicate)", "copy(add_self=False,predicate)"):
+        if form_name == "copy(add_self=False,predicate)" and start is None:
+            continue  # the tree-level copy has no add_self option
         calls = []
         pred = make_pred(vmap, fmap, calls)
         rec.evals += 1
@@ -208,6 +210,8 @@ def run(case, rec):
             continue
         if start is None:
             res = tree.filtered(pred) if form_name == "filtered" else tree.copy(predicate=pred)
+        elif form_name == "copy(add_self=False,predicate)":
+            res = start.copy(add_self=False, predicate=pred)
         else:
             res = start.filtered(pred) if form_name == "filtered" else start.copy(predicate=pred)
         if snapshot(tree, u) != before:
@@ -221,7 +225,7 @@ def run(case, rec):
             rec.fail("copy-form:result-malformed", [w2.problems, res.count, len(w2.pre)])
             return
         got_roots = w2.kids[id(None)]
-        if start is not None:
+        if start is not None and form_name != "copy(add_self=False,predicate)":
             # start node itself is always part of a branch copy
             if len(got_roots) != 1 or got_roots[0].data is not start.data:
                 rec.fail("copy-form:branch-root", tree_view(w2, got_roots))
